@@ -27,7 +27,13 @@ where
     where
         I: IntoIterator<Item = Pixel<Self::Color>>,
     {
-        for pixel in pixels {
+        // Pixels outside of the display area are discarded, as required by `DrawTarget`.
+        let bounding_box = self.bounding_box();
+
+        for pixel in pixels
+            .into_iter()
+            .filter(|pixel| bounding_box.contains(pixel.0))
+        {
             let x = pixel.0.x as u16;
             let y = pixel.0.y as u16;
 
@@ -44,7 +50,13 @@ where
     {
         use crate::batch::DrawBatch;
 
-        self.draw_batch(item)
+        // Pixels outside of the display area are discarded, as required by `DrawTarget`.
+        let bounding_box = self.bounding_box();
+
+        self.draw_batch(
+            item.into_iter()
+                .filter(move |pixel| bounding_box.contains(pixel.0)),
+        )
     }
 
     fn fill_contiguous<I>(&mut self, area: &Rectangle, colors: I) -> Result<(), Self::Error>
